@@ -12,7 +12,7 @@ import re
 import yaml
 
 STEP_NAMES = ["pre", "run", "post", "sim", "ana", "merge", "a", "b", "c-1", "x_y"]
-PARAM_NAMES = ["P", "PRESSURE", "X", "XY", "SIZE", "ITER", "T"]
+PARAM_NAMES = ["P", "PRESSURE", "X", "XY", "SIZE", "ITER", "T", "MESH-SIZE", "DT-MAX"]
 WORDS = ["echo", "cp", "out.txt", "-n", "4", "&&", "|", "ls", "./sim", "--flag", ">", "log", "'q'",
          "\"dq\"", "a/b", "x=1", "$HOME", "${P}", "$(date)", "$(PX)", "$(P_1)", "100%", "#c"]
 
